@@ -1,8 +1,7 @@
 import AsynqModel.Lib.Asyncio
 import AsynqModel.Proofs.Asyncio
-import AsynqModel.Proofs.AsyncioSpec
-/-! C15 after the repair of `convert_asynq_to_async` (AsyncTaskResult handled like StopIteration): `result(v)` and
-    `return v` are the same thing to both evaluators, so every `_partial` statement extends to ALL programs. -/
+/-! C15: `asynq.result(v)` is `return v` to both evaluators (after the repair of `convert_asynq_to_async`, which handles
+    AsyncTaskResult like StopIteration): replacing every `result(v)` of a program by `return v` changes nothing. -/
 namespace AsynqModel.Asyncio
 open AsynqModel.Core (Val)
 
@@ -25,123 +24,46 @@ def Ys.unres : Ys → Ys
   | .tup l => .tup (YsL.unres l)
   | .lst l => .lst (YsL.unres l)
   | .dict ks l => .dict ks (YsL.unres l)
+  | .sub y => .sub (Ys.unres y)
+  | .pval y => .pval (Ys.unres y)
 def YsL.unres : YsL → YsL
   | .nil => .nil
   | .cons y l => .cons (Ys.unres y) (YsL.unres l)
 end
 
 mutual
-theorem Prog.unres_noRes : ∀ p : Prog, (Prog.unres p).noRes = true
-  | .ret _ => rfl
-  | .res _ => rfl
-  | .raise _ => rfl
-  | .raiseB _ => rfl
-  | .reraise => rfl
-  | .yld _ y k h => by simp [Prog.unres, Prog.noRes, Ys.unres_noRes y, Prog.unres_noRes k, Prog.unres_noRes h]
-  | .sync _ child k h => by simp [Prog.unres, Prog.noRes, Prog.unres_noRes child, Prog.unres_noRes k, Prog.unres_noRes h]
-theorem Ys.unres_noRes : ∀ y : Ys, (Ys.unres y).noRes = true
-  | .none => rfl
-  | .junk => rfl
-  | .const _ => rfl
-  | .pconst _ => rfl
-  | .task _ p => by simp [Ys.unres, Ys.noRes, Prog.unres_noRes p]
-  | .tup l => by simp [Ys.unres, Ys.noRes, YsL.unres_noRes l]
-  | .lst l => by simp [Ys.unres, Ys.noRes, YsL.unres_noRes l]
-  | .dict _ l => by simp [Ys.unres, Ys.noRes, YsL.unres_noRes l]
-theorem YsL.unres_noRes : ∀ l : YsL, (YsL.unres l).noRes = true
-  | .nil => rfl
-  | .cons y l => by simp [YsL.unres, YsL.noRes, Ys.unres_noRes y, YsL.unres_noRes l]
-end
-
-mutual
-theorem Prog.unres_noSync : ∀ p : Prog, (Prog.unres p).noSync = p.noSync
-  | .ret _ => rfl
-  | .res _ => rfl
-  | .raise _ => rfl
-  | .raiseB _ => rfl
-  | .reraise => rfl
-  | .yld _ y k h => by simp [Prog.unres, Prog.noSync, Ys.unres_noSync y, Prog.unres_noSync k, Prog.unres_noSync h]
-  | .sync _ _ _ _ => rfl
-theorem Ys.unres_noSync : ∀ y : Ys, (Ys.unres y).noSync = y.noSync
-  | .none => rfl
-  | .junk => rfl
-  | .const _ => rfl
-  | .pconst _ => rfl
-  | .task _ p => by simp [Ys.unres, Ys.noSync, Prog.unres_noSync p]
-  | .tup l => by simp [Ys.unres, Ys.noSync, YsL.unres_noSync l]
-  | .lst l => by simp [Ys.unres, Ys.noSync, YsL.unres_noSync l]
-  | .dict _ l => by simp [Ys.unres, Ys.noSync, YsL.unres_noSync l]
-theorem YsL.unres_noSync : ∀ l : YsL, (YsL.unres l).noSync = l.noSync
-  | .nil => rfl
-  | .cons y l => by simp [YsL.unres, YsL.noSync, Ys.unres_noSync y, YsL.unres_noSync l]
-end
-
-mutual
-theorem Prog.unres_excOnly : ∀ p : Prog, (Prog.unres p).excOnly = p.excOnly
-  | .ret _ => rfl
-  | .res _ => rfl
-  | .raise _ => rfl
-  | .raiseB _ => rfl
-  | .reraise => rfl
-  | .yld _ y k h => by simp [Prog.unres, Prog.excOnly, Ys.unres_excOnly y, Prog.unres_excOnly k, Prog.unres_excOnly h]
-  | .sync _ child k h => by simp [Prog.unres, Prog.excOnly, Prog.unres_excOnly child, Prog.unres_excOnly k, Prog.unres_excOnly h]
-theorem Ys.unres_excOnly : ∀ y : Ys, (Ys.unres y).excOnly = y.excOnly
-  | .none => rfl
-  | .junk => rfl
-  | .const _ => rfl
-  | .pconst _ => rfl
-  | .task _ p => by simp [Ys.unres, Ys.excOnly, Prog.unres_excOnly p]
-  | .tup l => by simp [Ys.unres, Ys.excOnly, YsL.unres_excOnly l]
-  | .lst l => by simp [Ys.unres, Ys.excOnly, YsL.unres_excOnly l]
-  | .dict _ l => by simp [Ys.unres, Ys.excOnly, YsL.unres_excOnly l]
-theorem YsL.unres_excOnly : ∀ l : YsL, (YsL.unres l).excOnly = l.excOnly
-  | .nil => rfl
-  | .cons y l => by simp [YsL.unres, YsL.excOnly, Ys.unres_excOnly y, YsL.unres_excOnly l]
-end
-
-mutual
-theorem Prog.unres_noRaiseB : ∀ p : Prog, (Prog.unres p).noRaiseB = p.noRaiseB
-  | .ret _ => rfl
-  | .res _ => rfl
-  | .raise _ => rfl
-  | .raiseB _ => rfl
-  | .reraise => rfl
-  | .yld _ y k h => by simp [Prog.unres, Prog.noRaiseB, Ys.unres_noRaiseB y, Prog.unres_noRaiseB k, Prog.unres_noRaiseB h]
-  | .sync _ child k h => by simp [Prog.unres, Prog.noRaiseB, Prog.unres_noRaiseB child, Prog.unres_noRaiseB k, Prog.unres_noRaiseB h]
-theorem Ys.unres_noRaiseB : ∀ y : Ys, (Ys.unres y).noRaiseB = y.noRaiseB
-  | .none => rfl
-  | .junk => rfl
-  | .const _ => rfl
-  | .pconst _ => rfl
-  | .task _ p => by simp [Ys.unres, Ys.noRaiseB, Prog.unres_noRaiseB p]
-  | .tup l => by simp [Ys.unres, Ys.noRaiseB, YsL.unres_noRaiseB l]
-  | .lst l => by simp [Ys.unres, Ys.noRaiseB, YsL.unres_noRaiseB l]
-  | .dict _ l => by simp [Ys.unres, Ys.noRaiseB, YsL.unres_noRaiseB l]
-theorem YsL.unres_noRaiseB : ∀ l : YsL, (YsL.unres l).noRaiseB = l.noRaiseB
-  | .nil => rfl
-  | .cons y l => by simp [YsL.unres, YsL.noRaiseB, Ys.unres_noRaiseB y, YsL.unres_noRaiseB l]
-end
-
-theorem Prog.unres_safe (p : Prog) : (Prog.unres p).safe = p.safe := by
-  simp [Prog.safe, Prog.unres_excOnly, Prog.unres_noRaiseB]
-
-mutual
-theorem Ys.unres_labels : ∀ y : Ys, Ys.labels (Ys.unres y) = Ys.labels y
+theorem Ys.unres_labelsR : ∀ y : Ys, Ys.labelsR (Ys.unres y) = Ys.labelsR y
   | .none => rfl
   | .junk => rfl
   | .const _ => rfl
   | .pconst _ => rfl
   | .task _ _ => rfl
-  | .tup l => by simp [Ys.unres, Ys.labels, YsL.unres_labels l]
-  | .lst l => by simp [Ys.unres, Ys.labels, YsL.unres_labels l]
-  | .dict _ l => by simp [Ys.unres, Ys.labels, YsL.unres_labels l]
-theorem YsL.unres_labels : ∀ l : YsL, YsL.labels (YsL.unres l) = YsL.labels l
+  | .tup l => by simp [Ys.unres, Ys.labelsR, YsL.unres_labelsR l]
+  | .lst l => by simp [Ys.unres, Ys.labelsR, YsL.unres_labelsR l]
+  | .dict _ l => by simp [Ys.unres, Ys.labelsR, YsL.unres_labelsR l]
+  | .sub _ => rfl
+  | .pval y => by simp [Ys.unres, Ys.labelsR, Ys.unres_labelsR y]
+theorem YsL.unres_labelsR : ∀ l : YsL, YsL.labelsR (YsL.unres l) = YsL.labelsR l
   | .nil => rfl
-  | .cons y l => by simp [YsL.unres, YsL.labels, Ys.unres_labels y, YsL.unres_labels l]
+  | .cons y l => by simp [YsL.unres, YsL.labelsR, Ys.unres_labelsR y, YsL.unres_labelsR l]
 end
 
-theorem dc_unres (s : St) (y : Ys) : s.dc (Ys.unres y) = s.dc y := by
-  simp [St.dc, Ys.unres_labels]
+mutual
+theorem Ys.unres_labelsA : ∀ y : Ys, Ys.labelsA (Ys.unres y) = Ys.labelsA y
+  | .none => rfl
+  | .junk => rfl
+  | .const _ => rfl
+  | .pconst _ => rfl
+  | .task _ _ => rfl
+  | .tup l => by simp [Ys.unres, Ys.labelsA, YsL.unres_labelsA l]
+  | .lst l => by simp [Ys.unres, Ys.labelsA, YsL.unres_labelsA l]
+  | .dict _ l => by simp [Ys.unres, Ys.labelsA, YsL.unres_labelsA l]
+  | .sub y => by simp [Ys.unres, Ys.labelsA, Ys.unres_labelsA y]
+  | .pval _ => rfl
+theorem YsL.unres_labelsA : ∀ l : YsL, YsL.labelsA (YsL.unres l) = YsL.labelsA l
+  | .nil => rfl
+  | .cons y l => by simp [YsL.unres, YsL.labelsA, Ys.unres_labelsA y, YsL.unres_labelsA l]
+end
 
 mutual
 theorem bodyR_unres : ∀ (p : Prog) (gen : Bool) (t : Nat) (env : List Val) (caught : Option Err) (i : Nat) (s : St),
@@ -152,7 +74,7 @@ theorem bodyR_unres : ∀ (p : Prog) (gen : Bool) (t : Nat) (env : List Val) (ca
   | .raiseB _, _, _, _, _, _, _ => rfl
   | .reraise, _, _, _, _, _, _ => rfl
   | .yld hb y k h, gen, t, env, caught, i, s => by
-    simp only [Prog.unres, bodyR, ysR_unres y, dc_unres]
+    simp only [Prog.unres, bodyR, ysR_unres y, Ys.unres_labelsR]
     cases gen
     · rfl
     · simp only [Bool.not_true, Bool.false_eq_true, if_false]
@@ -170,6 +92,8 @@ theorem ysR_unres : ∀ (y : Ys) (s : St), ysR (Ys.unres y) s = ysR y s
   | .tup l, s => by simp [Ys.unres, ysR, yslR_unres l]
   | .lst l, s => by simp [Ys.unres, ysR, yslR_unres l]
   | .dict _ l, s => by simp [Ys.unres, ysR, yslR_unres l]
+  | .sub _, _ => rfl
+  | .pval y, s => by simp [Ys.unres, ysR, ysR_unres y]
 theorem yslR_unres : ∀ (l : YsL) (s : St), yslR (YsL.unres l) s = yslR l s
   | .nil, _ => rfl
   | .cons y l, s => by simp [YsL.unres, yslR, ysR_unres y, yslR_unres l]
@@ -184,7 +108,7 @@ theorem bodyA_unres : ∀ (p : Prog) (gen : Bool) (t : Nat) (env : List Val) (ca
   | .raiseB _, _, _, _, _, _, _ => rfl
   | .reraise, _, _, _, _, _, _ => rfl
   | .yld hb y k h, gen, t, env, caught, i, s => by
-    simp only [Prog.unres, bodyA, resolveA_unres y, dc_unres]
+    simp only [Prog.unres, bodyA, resolveA_unres y, Ys.unres_labelsA]
     cases gen
     · rfl
     · simp only [Bool.not_true, Bool.false_eq_true, if_false]
@@ -202,6 +126,8 @@ theorem resolveA_unres : ∀ (y : Ys) (s : St), resolveA (Ys.unres y) s = resolv
   | .tup l, s => by simp [Ys.unres, resolveA, gatherA_unres l]
   | .lst l, s => by simp [Ys.unres, resolveA, gatherA_unres l]
   | .dict _ l, s => by simp [Ys.unres, resolveA, gatherA_unres l]
+  | .sub y, s => by simp [Ys.unres, resolveA, resolveA_unres y]
+  | .pval y, s => by simp [Ys.unres, resolveA, resolveA_unres y]
 theorem gatherA_unres : ∀ (l : YsL) (s : St), gatherA (YsL.unres l) s = gatherA l s
   | .nil, _ => rfl
   | .cons y l, s => by simp [YsL.unres, gatherA, resolveA_unres y, gatherA_unres l]
@@ -215,65 +141,5 @@ theorem topCall_unres (c : Call) (p : Prog) (s : St) : topCall c (Prog.unres p) 
 
 theorem topValue_unres (c : Call) (p : Prog) (s : St) : topValue c (Prog.unres p) s = topValue c p s := by
   simp [topValue, bodyR_unres]
-
-theorem observe_unres (c : Call) (p : Prog) : observe c (Prog.unres p) = observe c p := by
-  simp [observe, observe1, allConvs, topA_unres, topCall_unres, topValue_unres]
-
-/-! ### the statements for programs without `result()` (proved before the repair, still valid) -/
-
-/-- **equivalence** (programs without `result()` and without plain synchronous calls):
-    awaiting `fn.asyncio(args)` - started in any context state `s` - gives exactly the value / exception of `fn(args)`,
-    which is also what `fn.asynq(args).value()` gives -/
-theorem equiv_noRes (c : Call) (p : Prog) (s s' : St) (hr : p.noRes = true) (hs : p.noSync = true)
-    (hx : p.safe = true) (hm' : s'.mode = false) :
-    (topA c p s).1 = (topCall c p s').1 ∧ (topValue c p s').1 = (topCall c p s').1 := by
-  refine ⟨?_, by rw [topValue_eq_topCall c p s' hm']⟩
-  rw [topA_eq]
-  simp only [topCall, hm', Bool.false_eq_true, if_false]
-  exact bodyA_eq_bodyR p _ _ _ _ _ _ _ (by simp) (by simp [hm']) hr hs (Safe.ofBool hx)
-
-/-- **equivalence, semantic form**: a program may contain plain synchronous calls; if the asyncio run attempts none of
-    them (none is logged), it still gives exactly the outcome of `fn(args)` -/
-theorem equiv_run_noRes (c : Call) (p : Prog) (s' : St) (hr : p.noRes = true) (hx : p.safe = true)
-    (hm' : s'.mode = false)
-    (hn : (topA c p {}).2.log.any isSyncX = false) : (topA c p {}).1 = (topCall c p s').1 :=
-  topA_sem c p hr hx s' hm' hn
-
-/-- **inside, the flag is on; siblings complete first; sync calls refused** (no `result()`): every event logged by an
-    asyncio run satisfies `evOkA` - each body saw `is_asyncio_mode() = True` at its start and at every resumption, every
-    resumption (value or exception) happened when all tasks yielded together had finished, every synchronous call
-    attempted was refused -/
-theorem asyncio_run_good_noRes (c : Call) (p : Prog) (hr : p.noRes = true) :
-    (topA c p {}).2.log.all evOkA = true := (topA_good c p hr).2
-
-/-- **C15 as a whole** (no `result()`): the observations of the model under all five ways of running a program -
-    `fn(args)`, `fn.asynq(args).value()`, `await fn.asyncio(args)`, `asyncio.run(fn.asyncio(args))`, as a task beside a
-    watcher - are accepted by the observer `spec`, the same Boolean function the check evaluates on the observations of
-    the real implementation -/
-theorem spec_holds_noRes (c : Call) (p : Prog) (hr : p.noRes = true) (hx : p.safe = true) :
-    spec (observe c p) = true := by
-  obtain ⟨hRm, hRl⟩ := topCall_good c p
-  obtain ⟨hAm, hAl⟩ := topA_good c p hr
-  have hsem := topA_sem c p hr hx {} rfl
-  have e1 : specObs (topCall c p {}).1 (observe1 .call c p) = .ok () :=
-    specObs_ok_R _ _ rfl rfl hRm (canary_off _ hRm) (by simpa [observe1] using hRl) rfl
-  have hv := topValue_eq_topCall c p {} rfl
-  have e2 : specObs (topCall c p {}).1 (observe1 .value c p) = .ok () :=
-    specObs_ok_R _ _ rfl rfl
-      (by rw [show (observe1 .value c p).after = (topValue c p {}).2.mode from rfl, hv]; exact hRm)
-      (by rw [show (observe1 .value c p).canary = canary (topValue c p {}).2 from rfl, hv]; exact canary_off _ hRm)
-      (by rw [show (observe1 .value c p).log = (topValue c p {}).2.log.reverse from rfl, hv]; simpa using hRl)
-      (by rw [show (observe1 .value c p).out = (topValue c p {}).1 from rfl, hv])
-  have e3 : specObs (topCall c p {}).1 (observe1 .aio c p) = .ok () :=
-    specObs_ok_A _ _ rfl rfl hAm (canary_off _ hAm) (by simpa [observe1] using hAl)
-      (by intro h; exact hsem (by simpa [observe1] using h))
-  have e4 : specObs (topCall c p {}).1 (observe1 .aiorun c p) = .ok () :=
-    specObs_ok_A _ _ rfl rfl rfl (canary_off _ rfl) (by simpa [observe1] using hAl)
-      (by intro h; exact hsem (by simpa [observe1] using h))
-  have e5 : specObs (topCall c p {}).1 (observe1 .aiotask c p) = .ok () :=
-    specObs_ok_A _ _ rfl rfl rfl (canary_off _ rfl) (by simpa [observe1] using hAl)
-      (by intro h; exact hsem (by simpa [observe1] using h))
-  exact spec_intro (observe1 .call c p) (observe1 .value c p) (observe1 .aio c p) (observe1 .aiorun c p)
-    (observe1 .aiotask c p) rfl rfl rfl rfl rfl e1 e2 e3 e4 e5
 
 end AsynqModel.Asyncio
